@@ -1219,7 +1219,7 @@ pub fn well_behaved(rng: &mut Rng, opts: GenOpts) -> AST {
 // ---------------------------------------------------------------------------------------------
 // Fault injection (C10): insert one faulting statement at a statement position.
 
-pub const FAULT_CLASSES: [&str; 38] = [
+pub const FAULT_CLASSES: [&str; 50] = [
     "unknown-variable-read",
     "unknown-variable-write",
     "unknown-function",
@@ -1258,6 +1258,19 @@ pub const FAULT_CLASSES: [&str; 38] = [
     "bool-operator-int-argument",
     "object-duplicate-field",
     "object-duplicate-method",
+    // near misses: the name exists close by, but not where the rules look for it
+    "inherited-field-get",
+    "inherited-field-set",
+    "field-called-as-method",
+    "method-read-as-field",
+    "function-read-as-variable",
+    "variable-called-as-function",
+    "method-called-as-function",
+    "bare-field-in-method",
+    "inherited-method-arity",
+    "block-local-after-block",
+    "caller-local-in-callee",
+    "array-method-on-object-with-array-field",
 ];
 
 pub fn fault_statement(class: &str, tag: usize) -> Vec<AST> {
@@ -1326,6 +1339,26 @@ pub fn fault_statement(class: &str, tag: usize) -> Vec<AST> {
             AST::array(AST::Integer(1), AST::Integer(0)),
             vec![AST::function(id("dm"), vec![], AST::Integer(1)), AST::variable(id("f"), AST::Integer(2)), AST::function(id("dm"), vec![id("a")], AST::Integer(2))],
         ),
+        // only methods are inherited: the child has no field fx
+        "inherited-field-get" => AST::access_field(AST::object(obj(), vec![AST::variable(id("own"), AST::Integer(2))]), id("fx")),
+        "inherited-field-set" => AST::assign_field(AST::object(obj(), vec![]), id("fx"), AST::Integer(3)),
+        "field-called-as-method" => AST::call_method(obj(), id("fx"), vec![]),
+        "method-read-as-field" => AST::access_field(obj(), id("fm")),
+        "function-read-as-variable" => var("zz_two"),
+        "variable-called-as-function" => AST::block(vec![AST::variable(id("zz_callee_var"), AST::Integer(1)), AST::call_function(id("zz_callee_var"), vec![])]),
+        "method-called-as-function" => AST::block(vec![AST::variable(id("zz_holder"), obj()), AST::call_function(id("fm"), vec![AST::Integer(1)])]),
+        // a method body sees parameters, this, its locals and globals: a field needs `this.`
+        "bare-field-in-method" => AST::call_method(
+            AST::object(AST::Null, vec![AST::variable(id("zz_bare_field"), AST::Integer(1)), AST::function(id("peek"), vec![], var("zz_bare_field"))]),
+            id("peek"),
+            vec![],
+        ),
+        "inherited-method-arity" => AST::call_method(AST::object(AST::object(obj(), vec![]), vec![]), id("fm"), vec![]),
+        "block-local-after-block" => AST::block(vec![AST::block(vec![AST::variable(id("zz_block_local"), AST::Integer(1)), var("zz_block_local")]), var("zz_block_local")]),
+        "caller-local-in-callee" => AST::block(vec![AST::variable(id("zz_caller_local"), AST::Integer(1)), AST::call_function(id("zz_reads_caller_local"), vec![])]),
+        "array-method-on-object-with-array-field" => {
+            AST::access_array(AST::object(AST::Null, vec![AST::variable(id("items"), AST::array(AST::Integer(2), AST::Integer(0)))]), AST::Integer(0))
+        }
         _ => AST::Null,
     };
     vec![pre, f]
@@ -1383,6 +1416,7 @@ pub fn insert_at(top: &mut AST, list: usize, pos: usize, stmts: Vec<AST>) -> boo
 pub fn add_fault_helpers(top: &mut AST) {
     if let AST::Top(ss) = top {
         ss.push(Box::new(AST::function(id("zz_two"), vec![id("a"), id("b")], op("+", var("a"), var("b")))));
+        ss.push(Box::new(AST::function(id("zz_reads_caller_local"), vec![], var("zz_caller_local"))));
     }
 }
 
